@@ -2,19 +2,23 @@
 From Coq Require Import List ZArith Bool Arith Lia.
 Import ListNotations.
 Require Import NV.C21.Model NV.C21.Proofs NV.C21.ModelVI NV.C21.ProofsVI.
+Require Import NV.C21.Stmt NV.C21.Gen_Random NV.C21.ProofsGen.
 
 (* ------------------------------------------------------------------------------------------ *)
 (* Classic random-number contexts (nifty/cl/random.py)                                          *)
 (* ------------------------------------------------------------------------------------------ *)
 
-(* Frame / locality.  Take ANY test program p (arbitrary nesting of contexts, raw pushes and pops,
-   draws, spawns, raised and caught exceptions) and run it on the stacks (S, R) alone.  If that
+(* Frame / locality.  Take ANY test program p without Context objects bound to variables
+   ([noobj]: arbitrary nesting of inline contexts, raw pushes and pops, draws, spawns, raised and
+   caught exceptions; Context objects store an absolute depth and are covered by the theorems
+   C21_context_objects_restore / C21_reentry_local below) and run it on the stacks (S, R) alone.  If that
    run never reaches below its own entries (flag false: no access to an empty stack, no
    getState/setState), then on top of ANY further entries B / RB the program does exactly the same
    (same heap of seed sequences, same variables, same draws, same exception, same upper stacks)
    and B / RB -- including the draw histories of all generators in RB -- are left untouched. *)
 Theorem C21_frame :
-  forall (p : prog) (s : st) (B : list nat) (RB : list gen) (s' : st) (o : option exc),
+  forall (p : prog), noobj p = true ->
+  forall (s : st) (B : list nat) (RB : list gen) (s' : st) (o : option exc),
     exec p s = (s', o, false) -> exec p (frame B RB s) = (frame B RB s', o, false).
 Proof. exact frame_exec. Qed.
 
@@ -28,7 +32,7 @@ Proof. exact frame_exec. Qed.
    i.e. it does not depend on the enclosing stacks at all. *)
 Theorem C21_context_restores :
   forall (i : inp) (body : prog) (s s1 : st) (o : option exc),
-    wf s ->
+    noobj body = true -> wf s ->
     exec (Ctx i body) (isolate s) = (s1, o, false) ->
     sseq s1 = [] ->
     exec (Ctx i body) s = (set_stacks s1 (sseq s) (rng s), o, false).
@@ -43,7 +47,7 @@ Proof. exact ctx_exit_balanced. Qed.
 (* Two states that differ only in the stacks: the context behaves identically in both. *)
 Theorem C21_context_local :
   forall (i : inp) (body : prog) (s s' s1 : st) (o : option exc),
-    wf s -> wf s' -> isolate s = isolate s' ->
+    noobj body = true -> wf s -> wf s' -> isolate s = isolate s' ->
     exec (Ctx i body) (isolate s) = (s1, o, false) -> sseq s1 = [] ->
     exec (Ctx i body) s = (set_stacks s1 (sseq s) (rng s), o, false) /\
     exec (Ctx i body) s' = (set_stacks s1 (sseq s') (rng s'), o, false).
@@ -70,6 +74,33 @@ Theorem C21_context_local_pure :
       exec (Ctx (ISeed z) body) s = (s1, o, false) /\
       dlog s1 = new ++ dlog s /\ sseq s1 = sseq s /\ rng s1 = rng s.
 Proof. exact context_local_pure. Qed.
+
+(* Context OBJECTS (`ctx = Context(seed)` ... `with ctx:` ... `with ctx:` ...).  Every entry -- the
+   first or a later one, at top level, nested in other contexts or after an entry that was left by
+   an exception -- pushes a NEW generator built from the object's seed sequence: for a body that
+   does not refer to outside SeedSequence objects, the draw records and the outcome are functions
+   of that generator identity g0 (entropy, spawn key) and of the body ALONE -- the same for every
+   state, hence independent of what earlier entries of the same object drew -- and both stacks
+   are restored. *)
+Theorem C21_reentry_local :
+  forall (body : prog), pure body = true -> forall g0 : gen,
+    exists (new : list drec) (o : option exc), forall (s : st) (c cid : nat),
+      nth_error (cpool s) c = Some cid -> cid < length (cheap s) ->
+      mkgen (lookup s (c_sseq (cobj_of s cid))) = g0 ->
+      exists s1 : st, exec (Enter c body) s = (s1, o, false) /\
+                      dlog s1 = new ++ dlog s /\ sseq s1 = sseq s /\ rng s1 = rng s.
+Proof. exact reentry_local_pure. Qed.
+
+(* Leaving a Context object restores both stacks for every body that uses the stacks only through
+   `with` (inline contexts or Context objects, also the SAME object nested in itself), for every
+   state; __exit__ never fails with IndexError.  (It can raise the RuntimeError of the depth
+   check: a nested entry of the same object overwrites self._depth -- see the Example below.) *)
+Theorem C21_context_objects_restore :
+  forall (c : nat) (body : prog) (s s' : st) (o : option exc) (t : bool),
+    scoped2 body = true ->
+    exec (Enter c body) s = (s', o, t) ->
+    sseq s' = sseq s /\ rng s' = rng s /\ t = false /\ o <> Some EIndex.
+Proof. exact objects_restore. Qed.
 
 (* A body that leaves the stacks at another depth is detected: __exit__ raises RuntimeError, and
    the state left behind is the body's final state minus the top entry. *)
@@ -110,6 +141,22 @@ Theorem C21_setstate_roundtrip :
     saved s2 = Some (heap s, sseq s, rng s) ->
     rng (do_setstate s2) = rng s /\ view_sseq (do_setstate s2) = view_sseq s.
 Proof. exact setstate_roundtrip. Qed.
+
+(* Source tie by translation.  Gen_Random.v is regenerated on every run from the CURRENT
+   nifty/cl/random.py (push_sseq, push_sseq_from_seed, pop_sseq, spawn_sseq, Context.__init__ /
+   __enter__ / __exit__; statement by statement, fail closed).  The generated functions are exactly
+   the operations the model executes, and `with ctx: body` run through the generated __enter__ /
+   __exit__ under Python's with-protocol is the model's [Enter]. *)
+Theorem C21_source_tie :
+  (forall id s, g_push_sseq id s = (do_push id s, None, false)) /\
+  (forall z s, g_push_sseq_from_seed z s = exec (PushSeed z) s) /\
+  (forall s, g_pop_sseq s = exec Pop s) /\
+  (forall n s, g_spawn_sseq n None s = exec (Spawn n) s) /\
+  (forall n id s, g_spawn_sseq n (Some id) s = (do_spawn id n s, None, false)) /\
+  (forall i s, g_ctx_init i s = exec (NewCtx i) s) /\
+  (forall c cid body s, nth_error (cpool s) c = Some cid ->
+     py_with (g_ctx_enter cid) (g_ctx_exit cid) g_ctx_exit_value (exec body) s = exec (Enter c body) s).
+Proof. exact source_tie. Qed.
 
 (* ------------------------------------------------------------------------------------------ *)
 (* JAX VI key schedule (nifty/re/optimize_kl.py)                                                *)
@@ -190,6 +237,25 @@ Proof. vm_compute. auto. Qed.
 Example C21_unbalanced_example :
   snd (fst (exec (Ctx (ISeed 7) (PushSeed 1)) (init 42))) = Some ERuntime.
 Proof. vm_compute. reflexivity. Qed.
+
+(* a Context object entered twice draws the same numbers twice (same identity, EMPTY history before
+   the first draw of each entry), also when re-entered after an exception and inside another context *)
+Example C21_reentry_example :
+  let p := Seq (NewCtx (ISeed 123))
+          (Seq (Enter 0 (Draw DU 2))
+          (Seq (Try (Enter 0 (Seq (Draw DN 1) Raise)))
+               (Ctx (ISeed 5) (Enter 0 (Draw DU 6))))) in
+  map (fun d => (d_ent d, d_before d, d_n d)) (dlog (fst (fst (exec p (init 42))))) =
+  [(123%Z, [], 6); (123%Z, [], 1); (123%Z, [], 2)] /\
+  length (sseq (fst (fst (exec p (init 42))))) = 1.
+Proof. vm_compute. auto. Qed.
+
+(* the same object nested in itself: the outer __exit__ raises RuntimeError (self._depth was
+   overwritten by the inner __enter__), the stacks are nevertheless restored *)
+Example C21_nested_same_object :
+  let r := exec (Seq (NewCtx (ISeed 1)) (Enter 0 (Enter 0 (Draw DU 1)))) (init 42) in
+  snd (fst r) = Some ERuntime /\ sseq (fst (fst r)) = [0] /\ length (rng (fst (fst r))) = 1.
+Proof. vm_compute. auto. Qed.
 
 Example C21_vi_example :
   fst (run (mkImpl Lmap Smap false true false)
